@@ -61,6 +61,14 @@ claimed = {
    text="Exhaustive boundary exploration of rule semantics vs published constraints: every supported rule kind x every field kind x a set of bound values, probed at and around every bound (integers +-1/+-2, floats +-1 ulp, rune-width variants for lengths, set members/non-members, item counts); for each probe the reference rule semantics (protovalidate stand-in on dynamic messages) must agree with python jsonschema on the M-json form against the emitted property schema. The space of (rule, kind, bound, probe) is finite and fully enumerated.",
    note="Trusted: M-rules (stand-in, standard rules only, no CEL), python jsonschema 4.26 without format assertion. NaN/Infinity probes and rules outside the statement's list (prefix, bytes length) are excluded.",
    tech="exhaustive boundary-value enumeration, equivalence of two executable semantics", ref="DESIGN.md section 8 C19"),
+ "C06": dict(
+   text="Every enumerated request and response value of every RPC (core REST/query/header units and every codec unit) is sent through generated Go client and server over the byte-level wire; every captured request body, 200/400/default response body and every path/query/header value is validated by python jsonschema (Draft 2020-12) against the schema the emitted OpenAPI document gives for that operation, plainly and under a strict transform that forbids undescribed properties at every depth; every reachable component must accept the documented form of its type's default and fully populated value. Exhaustive over the bounded value spaces of C01/C05.",
+   note="Trusted: python jsonschema 4.26 (no format assertion), strict transform of mc/py/validate.py, M-json for component satisfiability. Undeclared enum numbers are excluded from the domain; non-finite floats are kept as a separate class. TS client bodies are covered by C08.",
+   tech="exhaustive enumeration of wire instances validated against emitted schemas by a JSON Schema validator", ref="DESIGN.md section 8 C06"),
+ "C20": dict(
+   text="F-mock (response field kind x cardinality x example shape) and the core services are generated with generate_mock=true; the unmodified output is compiled and vetted; in an executed copy the mock's randomness is owned by the explorer (math/rand and crypto/rand redirected), every sequence of random choices is enumerated, and each answer is checked: no error on a valid request, serialisable by the generated server, valid against the published response schema, declared examples used.",
+   note="Trusted: the two-line import redirection of the executed copy; C06's schema oracle. Unparsable examples are judged only when at least one example parses.",
+   tech="exhaustive enumeration of schemas and of the mock's random choice sequences (RNG owned, not sampled)", ref="DESIGN.md section 8 C20"),
 }
 NA_REASON = "check not built yet (build in progress; see DESIGN.md section 14)"
 checks = []
